@@ -23,7 +23,8 @@
     successful statement in the events [es] of one run. *)
 From Coq Require Import List NArith Bool Arith.
 From Atlas Require Import Base.Bytes Base.Stutter Exec.ExecModel Exec.ExecProofs Exec.StepProofs
-  Exec.PendingModel Exec.PendingProofs Exec.RunModel Exec.TxModel Exec.TxProofs Exec.RunProofs.
+  Exec.PendingModel Exec.PendingProofs Exec.RunModel Exec.TxModel Exec.TxProofs Exec.RunProofs
+  Exec.ReuseModel Exec.ReuseProofs Exec.StoreModel Exec.StoreTxModel Exec.StoreTxProofs.
 Import ListNotations.
 
 (** The first failing file ends the run: nothing of the later files is touched. *)
@@ -127,14 +128,125 @@ Theorem C09_exactly_once_prefix :
   exists E, E <= length (plan all) /\ journal (all_events hash outs) = firstn E (plan all).
 Proof. exact (once_prefix_full hash heq HS heq_spec full full_sorted). Qed.
 
+(** ** the same over the STORE CONTRACT (M-STORE-TX, Exec/StoreTxModel.v)
+
+    [m_history] = successive `atlas migrate apply [n] --tx-mode none` runs as the
+    CLI performs them: ReadRevisions twice, then per file [driverFor] /
+    [ReadRevision] / [Execute] over the Ent store model, where every revisions
+    SELECT, every upsert and every statement pops the fault stream (a failing
+    SELECT ends the run before anything is written; an upsert overwrites the
+    row or, failing, leaves it). The database is [sdb]: the journal of the
+    statements whose effect is in it, and the revision table. Directory [full]
+    without txmode directives, any count and any fault stream per run.
+
+    3-store. Resume: the DATABASE's journal after any history is the plan up to
+    [E] in order, statement i executed [1 + reps[i]] times in a row, the repeats
+    bounded by the failed upserts directly after a statement; the stored
+    revisions claim the plan up to [P], [P <= E <= P + 1]. *)
+Theorem C09_resume_store :
+  forall rs : list m_run, Forall (mrun_on full) rs ->
+  let outs := m_history hash heq HS rs (mkSdb [] []) in
+  exists P E reps,
+    P <= E /\ E <= P + 1 /\ E <= length (plan all) /\ length reps = E /\
+    s_journal (m_final hash outs (mkSdb [] [])) = expand (firstn E (plan all)) reps /\
+    journal (m_events hash outs) = s_journal (m_final hash outs (mkSdb [] [])) /\
+    list_sum reps <= m_wf hash outs /\
+    claimed_plan hash all (s_tbl (m_final hash outs (mkSdb [] []))) = firstn P (plan all).
+Proof. exact (resume_store_full hash heq HS heq_spec full full_sorted). Qed.
+
+(** 1-store. Never overclaims, at any cut of the calls that reached the database. *)
+Theorem C09_never_overclaims_store :
+  forall rs : list m_run, Forall (mrun_on full) rs ->
+  forall pre post, m_events hash (m_history hash heq HS rs (mkSdb [] [])) = pre ++ post ->
+  exists P E reps,
+    P <= E /\ E <= P + 1 /\ E <= length (plan all) /\ length reps = E /\
+    journal pre = expand (firstn E (plan all)) reps /\
+    claimed_plan hash all (tbl_of_events hash pre []) = firstn P (plan all) /\
+    (forall r, In r (tbl_of_events hash pre []) ->
+       exists f, In f all /\ claim_ok hash HS f r (r_applied r) /\ r_total r = length (f_stmts f)).
+Proof. exact (never_overclaims_store_full hash heq HS heq_spec full full_sorted). Qed.
+
 End Hist.
 
+Print Assumptions C09_resume_store.
+Print Assumptions C09_never_overclaims_store.
 Print Assumptions C09_stop_on_fault.
 Print Assumptions C09_never_overclaims.
 Print Assumptions C09_resume.
 Print Assumptions C09_complete_marks_done.
 Print Assumptions C09_exactly_once.
 Print Assumptions C09_exactly_once_prefix.
+
+(** ** a reused [Executor] value (M-REUSE, Exec/ReuseModel.v)
+
+    [ExecuteTo] is the one method that assigns the executor's [dir] field (for a
+    version before a checkpoint file it runs [e.Pending] over a truncated
+    in-memory directory). For EVERY executor (options, directory), version,
+    revision table and fault stream -- whatever [ExecuteTo] returns: version not
+    found, the inner Pending fails (nothing pending, MissingMigrationError,
+    non-linear history, not clean, baseline), a statement or a write fails, or
+    success -- the executor it leaves is the executor it found. Hence any session
+    of ExecuteN / ExecuteTo / Pending calls on ONE executor value observes, call
+    by call (outcome, every ExecContext / WriteRevision event, revision table),
+    what the same calls observe when each is made on a new executor over the
+    same directory; and the [ExecuteN] after an [ExecuteTo] is the [execute_n]
+    of the theorems above on the executor's own directory. *)
+Theorem C09_executor_reuse :
+  forall (hash : Type) (heq : hash -> hash -> bool) (HS : bytes -> hash) (e : executor),
+  (forall v (t : list (rev hash)) fs,
+     snd (fst (fst (fst (execute_to hash heq HS e v t fs)))) = e) /\
+  (forall ops (t : list (rev hash)),
+     session hash heq HS (execute_to hash heq HS) e ops t =
+     session_fresh hash heq HS (execute_to hash heq HS) e ops t) /\
+  (forall v (t : list (rev hash)) fs n fs2,
+     let '(_, e', t', _, _) := execute_to hash heq HS e v t fs in
+     execute_n_of hash heq HS e' n t' fs2 = execute_n hash heq HS (e_cfg e) n (e_dir e) t' fs2).
+Proof.
+  intros hash heq HS e. split; [|split].
+  - intros v t fs. apply execute_to_restores.
+  - intros ops t. apply session_reuse_fresh.
+  - intros v t fs n fs2. apply execute_n_after_execute_to.
+Qed.
+Print Assumptions C09_executor_reuse.
+
+(** non-vacuity, and why the restore on the ERROR path matters: directory
+    1, 2 (checkpoint), 3 (two statements). ExecuteN(0) on a fresh database runs
+    2 and 3; the second statement of 3 fails. ExecuteTo("1") -- a version before
+    the checkpoint -- swaps the directory for [1]; the inner Pending fails
+    (revision 3 is partial and not in [1]: MissingMigrationError). The next
+    ExecuteN(0) resumes file 3 at its second statement. With [execute_to_leaky]
+    (the restore moved below `if err != nil { return err }`) the same executor
+    keeps the truncated directory and the next ExecuteN fails instead. *)
+Definition ru_f1 : file := mkFile [49%N] [[65%N]] false.
+Definition ru_f2 : file := mkFile [50%N] [[66%N]] true.
+Definition ru_f3 : file := mkFile [51%N] [[67%N]; [68%N]] false.
+Definition ru_e : executor := mkExecutor (mkCfg Linear None false false) [ru_f1; ru_f2; ru_f3].
+Definition ru_ops : list op :=
+  [ OpN 0 [false; false; false; false; false; false; false; true]; OpTo [49%N] []; OpN 0 []; OpPending ].
+Definition ru_show (r : op_result bytes) : to_outcome * list (bytes * bytes) :=
+  match r with
+  | ResRun _ o _ es => (o, journal es)
+  | ResPending _ p _ => (TRun (RPend p), [])
+  end.
+
+Example C09_executor_reuse_nonvacuous :
+  map ru_show (session bytes bytes_eqb (fun b => b) (execute_to bytes bytes_eqb (fun b => b)) ru_e ru_ops []) =
+  [ (TRun (RExec OStmtErr), [([50%N], [66%N]); ([51%N], [67%N])]);
+    (TRun (RPend (PMissing [51%N])), []);
+    (TRun (RExec ODone), [([51%N], [68%N])]);
+    (TRun (RPend PNoPending), []) ].
+Proof. vm_compute. reflexivity. Qed.
+
+Example C09_executor_reuse_needs_restore :
+  let leaky := execute_to_leaky bytes bytes_eqb (fun b => b) in
+  map ru_show (session bytes bytes_eqb (fun b => b) leaky ru_e ru_ops []) =
+  [ (TRun (RExec OStmtErr), [([50%N], [66%N]); ([51%N], [67%N])]);
+    (TRun (RPend (PMissing [51%N])), []);
+    (TRun (RPend (PMissing [51%N])), []);          (* the half-applied file is NOT resumed *)
+    (TRun (RPend (PMissing [51%N])), []) ] /\
+  session bytes bytes_eqb (fun b => b) leaky ru_e ru_ops [] <>
+  session_fresh bytes bytes_eqb (fun b => b) leaky ru_e ru_ops [].
+Proof. split; [vm_compute; reflexivity|]. vm_compute. intros H. discriminate H. Qed.
 
 (** ** a history that leaves the linear regime: --exec-order non-linear
 
@@ -187,6 +299,36 @@ Definition ex_runs : list run :=
   [ mkRun ex_cfg 0 ex_all [false; false; true];
     mkRun ex_cfg 0 ex_all [false; false; false; false; false; false; false; true];
     mkRun ex_cfg 0 ex_all [] ].
+
+(** the store: run 1: the upsert after statement A fails; run 2: the first
+    revisions SELECT fails (nothing happens); run 3: statement C fails; run 4 clean.
+    Calls of a run: ReadRevisions x2, then per file ReadRevision, upsert,
+    (statement, upsert)*, upsert. *)
+Definition st_runs : list m_run :=
+  let F := false in let T := true in
+  [ mkMRun TxNone 0 (map plain ex_all) [F; F; F; F; F; T];
+    mkMRun TxNone 0 (map plain ex_all) [T];
+    mkMRun TxNone 0 (map plain ex_all) [F; F; F; F; F; F; F; F; F; F; F; T];
+    mkMRun TxNone 0 (map plain ex_all) [] ].
+
+Example C09_resume_store_nonvacuous :
+  Forall (mrun_on ex_all) st_runs /\
+  let outs := m_history bytes bytes_eqb (fun b => b) st_runs (mkSdb [] []) in
+  let D := m_final bytes outs (mkSdb [] []) in
+  map (fun x => fst (fst x)) outs =
+    [XRun (MFail (SExec OWriteErr)); XReadErr; XRun (MFail (SExec OStmtErr)); XRun MDone] /\
+  map snd (s_journal D) = [[65%N]; [65%N]; [66%N]; [67%N]; [68%N]] /\
+  s_journal D = expand (plan ex_all) [1; 0; 0; 0] /\
+  m_wf bytes outs = 1 /\
+  claimed_plan bytes (from_last_ckpt ex_all) (s_tbl D) = plan ex_all.
+Proof. split; [repeat constructor|]. vm_compute. repeat split; reflexivity. Qed.
+
+(** a cut inside run 1 of the store history, after statement A ran and before its upsert. *)
+Example C09_never_overclaims_store_nonvacuous :
+  let evs := m_events bytes (m_history bytes bytes_eqb (fun b => b) st_runs (mkSdb [] [])) in
+  let pre := firstn 2 evs in
+  journal pre = [([49%N], [65%N])] /\ claimed_plan bytes ex_all (tbl_of_events bytes pre []) = [].
+Proof. vm_compute. split; reflexivity. Qed.
 
 Example C09_stop_nonvacuous :
   fst (fst (fst (execute bytes bytes_eqb (fun b => b) (mkFile [49%N] [[65%N]] false) [] [false; true]))) = OStmtErr.
